@@ -134,6 +134,10 @@ M = [
   '    if use_nice:\n        cmdline += ["nice", "-n-20"]', '    elif use_nice:\n        cmdline += ["nice", "-n-20"]'),
  ('C20', 'e02-exec-core-set-always', 'rebench/denoise.py',
   '    if use_shielding and paths.has_cset():\n        min_cores', '    if True:\n        min_cores'),
+ ('C20', 'i01-sigterm-handler-not-installed-early', 'rebench/rebench.py',
+  "            setup_signal_handling()\n", "            pass\n"),
+ ('C20', 'i02-sigterm-handler-reset-after-each-process', 'rebench/subprocess_with_timeout.py',
+  "    finally:\n        was_stopped = running.discard(thread)\n", "    finally:\n        was_stopped = running.discard(thread)\n        if current_thread() is main_thread():\n            signal.signal(signal.SIGTERM, signal.SIG_DFL)\n"),
  ('C20', 'n14-num-cores-minus-one', 'rebench/executor.py',
   'cmdline += "--num-cores " + str(num_cores) + " "', 'cmdline += "--num-cores " + str(num_cores - 1) + " "'),
 ]
